@@ -238,7 +238,9 @@ func TestC19_Malformed(t *testing.T) {
 	})
 }
 
-var tchar = "abcdefghijklmnopqrstuvwxyzABCDEFGHIJKLMNOPQRSTUVWXYZ0123456789-"
+// the characters a header field name may consist of (RFC 7230 token); letters, digits and the
+// hyphen several times over so that plain names stay the common case
+var tchar = "abcdefghijklmnopqrstuvwxyzABCDEFGHIJKLMNOPQRSTUVWXYZ0123456789-abcdefghijklmnopqrstuvwxyz---_.!#$%&'*+^`|~"
 
 func randCase(t *rapid.T, s string, label string) string {
 	b := []byte(s)
